@@ -186,6 +186,9 @@ func serialModel(c *Case, relax int) porcupine.Model {
 						// reported absence: nothing was done
 					case "add", "addif":
 						if !got.OK {
+							if relax >= 3 {
+								continue // a rejected duplicate is a read of "key present" that sop does not validate either
+							}
 							return false, state // reported presence of a key the model does not have
 						}
 						m.insert(sp.Name, KV{op.Key, op.Val}) // reported absence and inserted
@@ -277,6 +280,12 @@ func oracleC02(c *Case, res *Result) []Violation {
 			break
 		}
 	}
+	for _, sp := range c.Stores {
+		if sp.ValueMode != 0 {
+			tag += "/outofnode" // values kept outside the node: written by every attempt before the conflict checks
+			break
+		}
+	}
 	var ops []porcupine.Operation
 	id := 0
 	desc := []string{}
@@ -335,6 +344,8 @@ func oracleC02(c *Case, res *Result) []Violation {
 				kind = "/count-only"
 			} else if porcupine.CheckOperationsTimeout(mk(2), all, 20*time.Second) == porcupine.Ok {
 				kind = "/absence-results-only"
+			} else if porcupine.CheckOperationsTimeout(mk(3), all, 20*time.Second) == porcupine.Ok {
+				kind = "/rejected-duplicates-only"
 			}
 			tag := kind + tag
 			var fin []string
